@@ -118,6 +118,7 @@ class WorkerFailure(Exception):
 
 
 _n_calls = [0]
+_reported = [0.0, 0]
 
 
 def call_worker(req, root):
@@ -459,7 +460,9 @@ def judge(ops, final, res, ref, H, case):
         k = op[0]
         if k == 'import':
             if ev['status'] == 'exception':
-                if any('logic/basic.py' in w for w in ev.get('where', [])):
+                if sim.deleted or sim.cycle:
+                    H.note('intermediate-exception-in-damaged-library')
+                elif any('logic/basic.py' in w for w in ev.get('where', [])):
                     H.violation('import:exception-in-loader:%s:%s' % (ev.get('exc'), msg_kind(ev)), case,
                                 'import %s raised %s: %s at %s' % (op[1], ev.get('exc'), ev.get('msg'), ev.get('where', [])[-3:]))
                 else:
@@ -885,5 +888,8 @@ def run_shard(desc, seed, tier, H):
         H.mark_exhaustive("the empty history ('fresh process, load_theory(T)') for every theory T of the library")
     import resource
     ru = resource.getrusage(resource.RUSAGE_CHILDREN)
-    H.note('child_cpu_seconds', int(ru.ru_utime + ru.ru_stime))
-    H.note('subprocesses', _n_calls[0])
+    cpu = ru.ru_utime + ru.ru_stime
+    # a pool process may run several shards: report what this shard added
+    H.note('child_cpu_seconds', int(cpu - _reported[0]))
+    H.note('subprocesses', _n_calls[0] - _reported[1])
+    _reported[0], _reported[1] = cpu, _n_calls[0]
